@@ -404,9 +404,9 @@ def cache_session(args):
                     with open(paths["gtf_gz"], "wb") as raw:
                         with _gz.GzipFile(fileobj=raw, mode="wb", mtime=0) as f:
                             f.write("".join(keep).encode())
-                    clock[0] = int(max([clock[0]] + [int(v) for v in mtimes.values()])) + 1
-                    mtimes[paths["gtf"]] = float(clock[0])
-                    mtimes[paths["gtf_gz"]] = float(clock[0])
+                    st = os.stat(paths["gtf"])
+                    for pth in (paths["gtf"], paths["gtf_gz"]):
+                        os.utime(pth, (st.st_mtime + 2000.0 + si, st.st_mtime + 2000.0 + si))
                 elif op == "restore_old_gtf":
                     # the file is replaced by a different annotation that carries an OLDER mtime (cp -p, rsync -a, tar x)
                     with open(paths["gtf"]) as f:
@@ -416,13 +416,13 @@ def cache_session(args):
                     keep = [l for l in lines if victim is None or ('transcript_id "%s"' % victim) not in l]
                     with open(paths["gtf"], "w") as f:
                         f.writelines(keep)
-                    base = mtimes.get(paths["gtf"])
-                    if base is None:
-                        base = float(clock[0])
-                    mtimes[paths["gtf"]] = float(base) - 1000.0 - len(mtimes)
+                    # annotation files are not simulated paths: give the file a real, older modification time (as cp -p does)
+                    st = os.stat(paths["gtf"])
+                    old = st.st_mtime - 100000.0 - si
+                    os.utime(paths["gtf"], (old, old))
                 elif op == "touch_gtf":
-                    clock[0] = int(max([clock[0]] + [int(v) for v in mtimes.values()])) + 1
-                    mtimes[paths["gtf"]] = float(clock[0])
+                    st = os.stat(paths["gtf"])
+                    os.utime(paths["gtf"], (st.st_mtime + 1000.0 + si, st.st_mtime + 1000.0 + si))
                 elif op == "delete_db":
                     d = outs.get(step.get("out"))
                     if d:
@@ -456,6 +456,8 @@ def cache_session(args):
                                                disable_infer_genes=bool(o.get("complete_genedb")))
                     p2["db"] = dbp
                 argv, prefixes = make_argv(truth, p2, o, outdir, indir)
+                # "<shared>" in extra options stands for a folder that all actors of the session have in common
+                argv = [x.replace("<shared>", os.path.join(rundir, "shared_folder")) if isinstance(x, str) else x for x in argv]
                 actors.append({"argv": argv, "log": "step%d_%s.log" % (si, a["out"])})
                 meta.append((a, truth, paths, outdir, o, prefixes))
                 if (outdir, "<out_%s>" % a["out"]) not in dirs:
@@ -580,3 +582,50 @@ def common_file_class(name):
     if len(parts) == 2 and not base.startswith("combined_"):
         return "<prefix>." + parts[1]
     return base
+
+
+def folder_reuse(args):
+    """C12 'F' clause: an output folder that was used with another reference of the same name is reused (--force, no --resume)
+    with a plain-gzip reference; the result must equal a run of the same data with the plain FASTA in a fresh folder."""
+    import gzip as _gz
+    t0 = time.time()
+    rundir = new_rundir("f")
+    try:
+        indir = os.path.join(rundir, "in")
+        opts = dict(args.get("opts") or {})
+        truth, paths = build_inputs(args.get("spec"), dict(opts, ref_gz=False), indir)
+        chroms = [c for c, _ in truth["chroms"]]
+        gzp = paths["fasta"] + ".gz"
+
+        def write_gz(text):
+            with open(gzp, "wb") as raw:
+                with _gz.GzipFile(fileobj=raw, mode="wb", mtime=0) as f:
+                    f.write(text.encode())
+            for suf in (".fai", ".gzi"):
+                if os.path.exists(gzp + suf):
+                    os.remove(gzp + suf)
+        with open(paths["fasta"]) as f:
+            v2 = f.read()
+        v1 = "\n".join(l if l.startswith(">") else l.translate(str.maketrans("ACGT", "TGCA")) for l in v2.split("\n"))
+        paths["fasta_gz"] = gzp
+        out = os.path.join(rundir, "out")
+        res = {}
+        write_gz(v1)
+        r1 = run_once(rundir, truth, paths, dict(opts, ref_gz=True), sched=args.get("sched"), logname="first.log", outdir=out)
+        res["first_exit"] = r1["exit"]
+        write_gz(v2)
+        r2 = run_once(rundir, truth, paths, dict(opts, ref_gz=True), sched=args.get("sched"), logname="stdout.log", outdir=out)
+        f2, _ = outputs.collect(out, chroms)
+        out3 = os.path.join(rundir, "out_fresh")
+        r3 = run_once(rundir, truth, paths, dict(opts, ref_gz=False), sched=args.get("sched"), logname="fresh.log", outdir=out3,
+                      home=os.path.join(rundir, "home_fresh"))
+        f3, _ = outputs.collect(out3, chroms)
+        res.update(second={"exit": r2["exit"], "digests": outputs.digests(f2)}, fresh={"exit": r3["exit"], "digests": outputs.digests(f3)},
+                   events=r1["events"] + r2["events"] + r3["events"], trace_sha=simrun.trace_digest(r2["trace"]))
+        if r2["exit"] != 0:
+            res["second"]["log_tail"] = _log_tail(rundir)
+        res["wall"] = time.time() - t0
+        return res
+    finally:
+        if not args.get("keep"):
+            shutil.rmtree(rundir, ignore_errors=True)
